@@ -5,6 +5,8 @@ from concurrent.futures import ProcessPoolExecutor
 
 VERIF = os.path.dirname(os.path.dirname(os.path.dirname(os.path.abspath(__file__))))
 REPO = os.environ.get('VERIF_REPO', '/repo')
+BUILD = os.environ.get('VERIF_BUILD_ROOT') or os.path.join(VERIF, 'build')       # alternate roots are used only to try the checks on scratch copies of the tree
+OUT = os.environ.get('VERIF_OUT') or VERIF                                          # where evidence/ and replays/ are written
 NPROC = int(os.environ.get('VERIF_JOBS', '16'))
 SEED = int(os.environ.get('VERIF_SEED', '0') or 0)
 
@@ -121,7 +123,7 @@ class Check:
         self.known_cases, self.known_cases_what = load_known_cases(prop)
         self.parts = {}
         self.deadline = None
-        self.replay_dir = os.path.join(VERIF, 'replays', prop)
+        self.replay_dir = os.path.join(OUT, 'replays', prop)
 
     def set_deadline(self, seconds):
         self.deadline = self.t0 + seconds
@@ -171,7 +173,7 @@ class Check:
         return True
 
     def finish(self):
-        os.makedirs(os.path.join(VERIF, 'evidence'), exist_ok=True)
+        os.makedirs(os.path.join(OUT, 'evidence'), exist_ok=True)
         for k, (f, n) in sorted(self.known_hit.items()):
             print('KNOWN-FINDING: property=%s %s (%d case(s) this run; %s)' % (self.prop, k, n, f.get('what', '')))
         nviol = len(self.violations)
@@ -194,7 +196,7 @@ class Check:
         ev = {'property_id': self.prop, 'tier': self.tier, 'seed': SEED, 'level': self.level, 'coverage': self.cov,
               'assumptions': self.assumptions, 'wall_s': round(time.time() - self.t0, 2), 'violations': nviol,
               'known_findings_hit': {k: n for k, (f, n) in self.known_hit.items()}}
-        p = os.path.join(VERIF, 'evidence', self.prop + '.json')
+        p = os.path.join(OUT, 'evidence', self.prop + '.json')
         json.dump(ev, open(p + '.tmp', 'w'), indent=1, default=str)
         os.replace(p + '.tmp', p)
         log('[%s %s] evaluations=%d distinct=%d states=%d transitions=%d exhaustive=%s violations=%d known=%d wall=%.1fs' % (
